@@ -18,18 +18,25 @@ variable {p : PS} {e' : EP} {g' : Ghost} {i y : Nat} {o o' : Obj} {em : List Msg
 /-- The update does not touch what the sending role shows. -/
 theorem hS_of_eq (h1 : o'.credit = o.credit) (h2 : o'.finishSent = o.finishSent) (h3 : g'.wlog i = p.ga.wlog i)
     (h4 : em.filterMap toItem = []) :
-    ∀ oR fwd bwd r eof l, DirRel o oR fwd bwd (p.ga.wlog i) r eof l →
+    lookup p.a.flows y ≠ none → ∀ oR fwd bwd r eof l, DirRel o oR fwd bwd (p.ga.wlog i) r eof l →
       ∃ l', DirRel o' oR (fwd ++ em) bwd (g'.wlog i) r eof l' :=
-  fun _ _ _ _ _ l d => ⟨l, d.congr h1 h2 rfl rfl rfl rfl rfl rfl (filterMap_append_nil _ _ _ h4) rfl h3 rfl rfl rfl⟩
+  fun _ _ _ _ _ _ l d => ⟨l, d.congr h1 h2 rfl rfl rfl rfl rfl rfl (filterMap_append_nil _ _ _ h4) rfl h3 rfl rfl rfl⟩
 
 /-- The update does not touch what the receiving role shows. -/
 theorem hR_of_eq (h1 : o'.cap = o.cap) (h2 : o'.threshold = o.threshold) (h3 : o'.senderAlive = o.senderAlive)
     (h4 : o'.rxq = o.rxq) (h5 : o'.buf = o.buf) (h6 : o'.recvdSince = o.recvdSince)
     (h7 : g'.rlog i = p.ga.rlog i) (h8 : g'.eof i = p.ga.eof i) (h9 : em.filterMap ackOf = [])
     (h10 : o'.rxOpen = o.rxOpen) :
-    ∀ oS fwd bwd w l, DirRel oS o fwd bwd w (p.ga.rlog i) (p.ga.eof i) l →
+    ReaderOk o' (g'.eof i) → ∀ oS fwd bwd w l, DirRel oS o ([] ++ fwd) bwd w (p.ga.rlog i) (p.ga.eof i) l →
       ∃ l', DirRel oS o' fwd (bwd ++ em) w (g'.rlog i) (g'.eof i) l' :=
-  fun _ _ _ _ l d => ⟨l, d.congr rfl rfl h1 h2 h3 h4 h5 h6 rfl (filterMap_append_nil _ _ _ h9) rfl h7 h8 h10⟩
+  fun _ _ _ _ _ l d => ⟨l, d.congr rfl rfl h1 h2 h3 h4 h5 h6 rfl (filterMap_append_nil _ _ _ h9) rfl h7 h8 h10⟩
+
+theorem hRA_of_eq (h1 : o'.cap = o.cap) (h2 : o'.threshold = o.threshold) (h3 : o'.senderAlive = o.senderAlive)
+    (h4 : o'.rxq = o.rxq) (h5 : o'.buf = o.buf) (h6 : o'.recvdSince = o.recvdSince)
+    (h7 : g'.rlog i = p.ga.rlog i) (h8 : g'.eof i = p.ga.eof i) (h10 : o'.rxOpen = o.rxOpen) :
+    ReaderOk o' (g'.eof i) → ∀ fwd w l, DirRelA o ([] ++ fwd) w (p.ga.rlog i) (p.ga.eof i) l →
+      ∃ l', DirRelA o' fwd w (g'.rlog i) (g'.eof i) l' :=
+  fun _ _ _ l d => ⟨l, d.congr h1 h2 h3 h4 h5 h6 (fun _ => rfl) rfl h7 h8 h10⟩
 
 /-- An object-local update with the footprint of the object's flow preserves the invariant. -/
 theorem inv_of_local (h : Inv p) (s : Eff (· = y) p.a e') (u : LocalUpd p.a e' i o' em dq)
@@ -37,10 +44,18 @@ theorem inv_of_local (h : Inv p) (s : Eff (· = y) p.a e') (u : LocalUpd p.a e' 
     (hem : ∀ m ∈ em, Msg.flow? m = some y ∧ m.isConnect = false)
     (hba : ba' = p.ba ∨ ∃ m, p.ba = m :: ba' ∧ ∀ z, Msg.flow? m = some z → z = y)
     (hba1 : fl y (pathBA p) = hd ++ fbaT) (hba2 : fl y (ba' ++ p.b.outq) = fbaT)
-    (hS : ∀ oR fwd bwd r eof l, DirRel o oR fwd (hd ++ bwd) (p.ga.wlog i) r eof l →
+    (hS : lookup p.a.flows y ≠ none → ∀ oR fwd bwd r eof l, DirRel o oR fwd (hd ++ bwd) (p.ga.wlog i) r eof l →
             ∃ l', DirRel o' oR (fwd ++ em) bwd (g'.wlog i) r eof l')
-    (hR : ¬ y ∈ dq → ∀ oS fwd bwd w l, DirRel oS o (hd ++ fwd) bwd w (p.ga.rlog i) (p.ga.eof i) l →
+    (hR : ReaderOk o' (g'.eof i) → ∀ oS fwd bwd w l, DirRel oS o (hd ++ fwd) bwd w (p.ga.rlog i) (p.ga.eof i) l →
             ∃ l', DirRel oS o' fwd (bwd ++ em) w (g'.rlog i) (g'.eof i) l')
+    (hRA : ReaderOk o' (g'.eof i) → ∀ fwd w l, DirRelA o (hd ++ fwd) w (p.ga.rlog i) (p.ga.eof i) l →
+            ∃ l', DirRelA o' fwd w (g'.rlog i) (g'.eof i) l')
+    (hok : ReaderOk o' (g'.eof i) → ReaderOk o (p.ga.eof i))
+    (hclosed : (o.finishSent = true → o'.finishSent = true ∧ g'.wlog i = p.ga.wlog i) ∧
+               (o.senderAlive = false → o'.senderAlive = false))
+    (hnr : lookup p.a.flows y ≠ none → noReset em) (hhd : lookup p.a.flows y ≠ none → noReset hd)
+    (hw : WireUpd o o' em hd)
+    (hrxd : (o.rxOpen = false → o'.rxOpen = false) ∧ (y ∈ dq → o'.rxOpen = false))
     (hHalf : hd = [] → o.rxq = [] → o.buf = [] → o.recvdSince = 0 → o.senderAlive = true →
             o'.rxq = [] ∧ o'.buf = [] ∧ o'.recvdSince = 0 ∧ o'.senderAlive = true ∧ (∀ m ∈ em, ackOf m = none) ∧
             g'.rlog i = p.ga.rlog i ∧ g'.eof i = p.ga.eof i ∧ (¬ y ∈ dq → o.rxOpen = true → o'.rxOpen = true))
@@ -52,7 +67,7 @@ theorem inv_of_local (h : Inv p) (s : Eff (· = y) p.a e') (u : LocalUpd p.a e' 
     rcases Nat.lt_or_ge i p.a.objs.length with h1 | h1
     · exact h1
     · simp [List.getElem?_eq_none h1] at ho
-  refine inv_of_eff (ba' := ba') h s hba ?_ ?_ ?_
+  refine inv_of_eff (ba' := ba') (lk' := p.linked) h s hba ?_ ?_ (fun _ _ hh => hh) ?_
   · intro x hx k hk
     by_cases hki : k = i
     · subst hki
@@ -69,7 +84,8 @@ theorem inv_of_local (h : Inv p) (s : Eff (· = y) p.a e') (u : LocalUpd p.a e' 
     exact h.ghA k (by have := s.len; omega)
   · intro x hx
     subst hx
-    exact phase_upd (h.phase _) u ho hoy ho' hem hba1 hba2 hS hR hHalf hcap hdq
+    have := phase_upd (lk' := p.linked) (h.phase _) u ho hoy ho' hem hba1 hba2 hS hR hRA hok hclosed hnr hhd hw hrxd hHalf hcap hdq
+    exact ⟨this.1, fun hl => this.2 (h.live _ hl)⟩
 
 end
 
@@ -110,6 +126,41 @@ theorem flow_push (y : Nat) (d : Bytes) : Msg.flow? (.frame (.push y d)) = some 
 theorem flow_finish (y : Nat) : Msg.flow? (.frame (.finish y)) = some y := rfl
 theorem flow_ack (y n : Nat) : Msg.flow? (.frame (.acknowledge y n)) = some y := rfl
 
+theorem noReset_nil : noReset [] := by intro m hm; cases hm
+
+/-- An update that leaves the receiving role of the object alone (write, shutdown). -/
+theorem inv_of_sender_upd {p : PS} {e' : EP} {g' : Ghost} {i y : Nat} {o o' : Obj} {em : List Msg}
+    (h : Inv p) (s : Eff (· = y) p.a e') (u : LocalUpd p.a e' i o' em [])
+    (ho : p.a.objs[i]? = some o) (hoy : o.fid = y) (ho' : o'.fid = y)
+    (hem : ∀ m ∈ em, Msg.flow? m = some y ∧ m.isConnect = false)
+    (hS : lookup p.a.flows y ≠ none → ∀ oR fwd bwd r eof l, DirRel o oR fwd ([] ++ bwd) (p.ga.wlog i) r eof l →
+            ∃ l', DirRel o' oR (fwd ++ em) bwd (g'.wlog i) r eof l')
+    (r1 : o'.cap = o.cap) (r2 : o'.threshold = o.threshold) (r3 : o'.senderAlive = o.senderAlive)
+    (r4 : o'.rxq = o.rxq) (r5 : o'.buf = o.buf) (r6 : o'.recvdSince = o.recvdSince) (r7 : o'.rxOpen = o.rxOpen)
+    (g1 : g'.rlog i = p.ga.rlog i) (g2 : g'.eof i = p.ga.eof i)
+    (hacks : em.filterMap ackOf = []) (hnr : noReset em)
+    (hclosed : o.finishSent = true → o'.finishSent = true ∧ g'.wlog i = p.ga.wlog i)
+    (hwire : noPushAfterEnd (em.filterMap toItem) = true ∧ (o.finishSent = true → Link.pushes (em.filterMap toItem) = []) ∧
+             (Link.hasEnd (em.filterMap toItem) = true → o'.finishSent = true))
+    (hg : ∀ k, k ≠ i → g'.wlog k = p.ga.wlog k ∧ g'.rlog k = p.ga.rlog k ∧ g'.eof k = p.ga.eof k) :
+    Inv { p with a := e', ga := g' } := by
+  have hackm : ∀ m ∈ em, ackOf m = none := by
+    intro m hm
+    cases hk : ackOf m with
+    | none => rfl
+    | some n =>
+      have : n ∈ em.filterMap ackOf := List.mem_filterMap.mpr ⟨m, hm, hk⟩
+      rw [hacks] at this; cases this
+  exact inv_of_local (ba' := p.ba) (hd := []) (fbaT := fl _ (pathBA p)) h s u ho hoy ho' hem (Or.inl rfl) rfl rfl hS
+    (hR_of_eq r1 r2 r3 r4 r5 r6 g1 g2 hacks r7) (hRA_of_eq r1 r2 r3 r4 r5 r6 g1 g2 r7)
+    (fun hk => by unfold ReaderOk at *; rw [r7, g2] at hk; exact hk)
+    ⟨hclosed, fun ha => by rw [r3]; exact ha⟩ (fun _ => hnr) (fun _ => noReset_nil)
+    ⟨hwire.1, hwire.2.1, hwire.2.2, fun ha => Or.inl (by rw [← r3]; exact ha)⟩
+    ⟨fun hh => by rw [r7]; exact hh, fun hh => by cases hh⟩
+    (fun _ a b c d => ⟨by rw [r4]; exact a, by rw [r5]; exact b, by rw [r6]; exact c, by rw [r3]; exact d, hackm, g1, g2,
+      fun _ hh => by rw [r7]; exact hh⟩)
+    ⟨r1, r2⟩ (by simp) hg
+
 /-- `poll_write`. -/
 theorem inv_write {p : PS} (h : Inv p) (hd : Nat) (d : Bytes) :
     Inv { p with a := (appWrite p.a hd d).1,
@@ -129,60 +180,99 @@ theorem inv_write {p : PS} (h : Inv p) (hd : Nat) (d : Bytes) :
     rw [hhi]
     rcases appWrite_local p.a hd i o d hh h.runA.outClosed with ⟨hf, hres, u⟩ | ⟨hf, hd0, hres, u⟩ | ⟨hf, hd0, hc, hres, u⟩ | ⟨hf, hd0, hc, hres, u⟩
     · rw [hres]
-      exact inv_of_local (ba' := p.ba) (hd := []) (fbaT := fl _ (pathBA p)) (g' := p.ga) h s u ho rfl rfl (by simp) (Or.inl rfl) rfl rfl (hS_of_eq rfl rfl rfl rfl)
-        (fun _ => hR_of_eq rfl rfl rfl rfl rfl rfl rfl rfl rfl rfl) (fun _ a b c d => ⟨a, b, c, d, by simp, by simp, by simp, fun _ hh => hh⟩) ⟨rfl, rfl⟩ (by simp)
-        (fun _ _ => ⟨rfl, rfl, rfl⟩)
+      exact inv_of_sender_upd (g' := p.ga) h s u ho rfl rfl (by simp) (hS_of_eq rfl rfl rfl rfl)
+        rfl rfl rfl rfl rfl rfl rfl rfl rfl rfl noReset_nil (fun hh => ⟨hh, rfl⟩) ⟨rfl, fun _ => rfl, fun hh => (by cases hh)⟩ (fun _ _ => ⟨rfl, rfl, rfl⟩)
     · rw [hres]
       subst hd0
-      exact inv_of_local (ba' := p.ba) (hd := []) (fbaT := fl _ (pathBA p)) (g' := p.ga.addW i []) h s u ho rfl rfl (by simp) (Or.inl rfl) rfl rfl (hS_of_eq rfl rfl (by simp) rfl)
-        (fun _ => hR_of_eq rfl rfl rfl rfl rfl rfl rfl rfl rfl rfl) (fun _ a b c d => ⟨a, b, c, d, by simp, by simp, by simp, fun _ hh => hh⟩) ⟨rfl, rfl⟩ (by simp)
-        (fun k hk => addW_other _ _ _ _ hk)
+      exact inv_of_sender_upd (g' := p.ga.addW i []) h s u ho rfl rfl (by simp) (hS_of_eq rfl rfl (by simp) rfl)
+        rfl rfl rfl rfl rfl rfl rfl rfl rfl rfl noReset_nil (fun hh => ⟨hh, by simp⟩) ⟨rfl, fun _ => rfl, fun hh => (by cases hh)⟩ (fun k hk => addW_other _ _ _ _ hk)
     · rw [hres]
-      exact inv_of_local (ba' := p.ba) (hd := []) (fbaT := fl _ (pathBA p)) (g' := p.ga) h s u ho rfl rfl (by simp) (Or.inl rfl) rfl rfl (hS_of_eq rfl rfl rfl rfl)
-        (fun _ => hR_of_eq rfl rfl rfl rfl rfl rfl rfl rfl rfl rfl) (fun _ a b c d => ⟨a, b, c, d, by simp, by simp, by simp, fun _ hh => hh⟩) ⟨rfl, rfl⟩ (by simp)
-        (fun _ _ => ⟨rfl, rfl, rfl⟩)
+      exact inv_of_sender_upd (g' := p.ga) h s u ho rfl rfl (by simp) (hS_of_eq rfl rfl rfl rfl)
+        rfl rfl rfl rfl rfl rfl rfl rfl rfl rfl noReset_nil (fun hh => ⟨hh, rfl⟩) ⟨rfl, fun _ => rfl, fun hh => (by cases hh)⟩ (fun _ _ => ⟨rfl, rfl, rfl⟩)
     · rw [hres]
-      refine inv_of_local (ba' := p.ba) (hd := []) (fbaT := fl _ (pathBA p)) (g' := p.ga.addW i d) h s u ho rfl rfl ?_ (Or.inl rfl) rfl rfl ?_
-        (fun _ => hR_of_eq rfl rfl rfl rfl rfl rfl rfl rfl rfl rfl) (fun _ a b c d => ⟨a, b, c, d, by simp, by simp, by simp, fun _ hh => hh⟩) ⟨rfl, rfl⟩ (by simp)
-        (fun k hk => addW_other _ _ _ _ hk)
+      refine inv_of_sender_upd (g' := p.ga.addW i d) h s u ho rfl rfl ?_ ?_
+        rfl rfl rfl rfl rfl rfl rfl rfl rfl rfl ?_ (fun hh => by rw [hf] at hh; cases hh) ⟨rfl, fun hh => (by rw [hf] at hh; cases hh), fun hh => (by simp [Link.hasEnd, Link.Item.isPush] at hh)⟩ (fun k hk => addW_other _ _ _ _ hk)
       · intro m hm; simp at hm; subst hm; exact ⟨rfl, rfl⟩
-      · intro oR fwd bwd r eof l dr
+      · intro _ oR fwd bwd r eof l dr
         rw [addW_wlog_self]
         exact ⟨_, dr.write o.fid d hf hd0 hc⟩
-
-/-- The ghost update of a read never touches the write log nor other objects' logs. -/
-theorem readGhost_facts (g : Ghost) (res : Res) (i : Nat) :
-    (match res, (some i : Option Nat) with
-      | .data bs, some i => g.addR i bs
-      | .eof, some i => g.setEof i
-      | _, _ => g).wlog = g.wlog ∧
-    ∀ k, k ≠ i →
-      (match res, (some i : Option Nat) with
-        | .data bs, some i => g.addR i bs
-        | .eof, some i => g.setEof i
-        | _, _ => g).rlog k = g.rlog k ∧
-      (match res, (some i : Option Nat) with
-        | .data bs, some i => g.addR i bs
-        | .eof, some i => g.setEof i
-        | _, _ => g).eof k = g.eof k := by
-  cases res <;> simp [Ghost.addR, Ghost.setEof] <;> intro k hk <;> simp [hk]
+      · intro m hm y' he; simp at hm; subst hm; cases he
 
 theorem acks_flow {y : Nat} {em : List Msg} (h : AcksOf y em) :
-    (∀ m ∈ em, Msg.flow? m = some y ∧ m.isConnect = false) ∧ em.filterMap toItem = [] := by
-  constructor
+    (∀ m ∈ em, Msg.flow? m = some y ∧ m.isConnect = false) ∧ em.filterMap toItem = [] ∧ noReset em := by
+  refine ⟨?_, ?_, ?_⟩
   · intro m hm; obtain ⟨n, rfl⟩ := h m hm; exact ⟨rfl, rfl⟩
   · induction em with
     | nil => rfl
     | cons m rest ih =>
       obtain ⟨n, rfl⟩ := h m (by simp)
       simp [List.filterMap_cons, ih (fun m' hm' => h m' (List.mem_cons_of_mem _ hm'))]
+  · intro m hm y' he; obtain ⟨n, rfl⟩ := h m hm; cases he
+
+/-- An update that leaves the sending role of the object alone (reads): the receiving role's
+    transformers are given. -/
+theorem inv_of_reader_upd {p : PS} {e' : EP} {g' : Ghost} {i y : Nat} {o o' : Obj} {em : List Msg}
+    (h : Inv p) (s : Eff (· = y) p.a e') (u : LocalUpd p.a e' i o' em [])
+    (ho : p.a.objs[i]? = some o) (hoy : o.fid = y) (ss : SenderSame o o') (hak : AcksOf y em)
+    (gw : g'.wlog i = p.ga.wlog i)
+    (hR : ReaderOk o' (g'.eof i) → ∀ oS fwd bwd w l, DirRel oS o ([] ++ fwd) bwd w (p.ga.rlog i) (p.ga.eof i) l →
+            ∃ l', DirRel oS o' fwd (bwd ++ em) w (g'.rlog i) (g'.eof i) l')
+    (hRA : ReaderOk o' (g'.eof i) → ∀ fwd w l, DirRelA o ([] ++ fwd) w (p.ga.rlog i) (p.ga.eof i) l →
+            ∃ l', DirRelA o' fwd w (g'.rlog i) (g'.eof i) l')
+    (hok : ReaderOk o' (g'.eof i) → ReaderOk o (p.ga.eof i))
+    (hHalf : o.rxq = [] → o.buf = [] → o.senderAlive = true → False)
+    (hg : ∀ k, k ≠ i → g'.wlog k = p.ga.wlog k ∧ g'.rlog k = p.ga.rlog k ∧ g'.eof k = p.ga.eof k) :
+    Inv { p with a := e', ga := g' } := by
+  obtain ⟨hemf, hemi, hemr⟩ := acks_flow hak
+  exact inv_of_local (ba' := p.ba) (hd := []) (fbaT := fl _ (pathBA p)) h s u ho hoy (by rw [ss.fid, hoy]) hemf (Or.inl rfl) rfl rfl
+    (hS_of_eq ss.credit ss.finishSent gw hemi) hR hRA hok
+    ⟨fun hh => ⟨by rw [ss.finishSent]; exact hh, gw⟩, fun ha => by rw [ss.alive]; exact ha⟩ (fun _ => hemr) (fun _ => noReset_nil)
+    ⟨(by rw [hemi]; rfl), fun _ => (by rw [hemi]; rfl), fun hh => (by rw [hemi] at hh; cases hh),
+     fun ha => Or.inl (by rw [← ss.alive]; exact ha)⟩
+    ⟨fun hh => (by cases hr : o'.rxOpen with
+                   | false => rfl
+                   | true => have := ss.rxOpen hr; rw [hh] at this; cases this), fun hh => (by cases hh)⟩
+    (fun _ a b _ d => absurd (hHalf a b d) id) ⟨ss.cap, ss.threshold⟩ (by simp) hg
+
+/-- The ghost update of a read. -/
+def readGhost (e : EP) (g : Ghost) (res : Res) (i : Nat) : Ghost :=
+  match res, (some i : Option Nat) with
+  | .data bs, some i => g.addR i bs
+  | .eof, some i => g.noteEof e i
+  | _, _ => g
+
+theorem noteEof_facts (e : EP) (g : Ghost) (i : Nat) (o : Obj) (ho : e.objs[i]? = some o) :
+    (g.noteEof e i).wlog = g.wlog ∧ (g.noteEof e i).rlog = g.rlog ∧
+    (∀ k, k ≠ i → (g.noteEof e i).eof k = g.eof k) ∧
+    ((g.noteEof e i).eof i = true → g.eof i = true ∨ o.rxOpen = true) := by
+  simp only [Ghost.noteEof, ho]
+  by_cases hc : (o.rxOpen || g.eof i) = true
+  · rw [if_pos hc]
+    refine ⟨rfl, rfl, fun k hk => by simp [Ghost.setEof, hk], fun _ => ?_⟩
+    rcases Bool.or_eq_true_iff.mp hc with h1 | h1
+    · exact Or.inr h1
+    · exact Or.inl h1
+  · rw [if_neg hc]
+    exact ⟨rfl, rfl, fun _ _ => rfl, fun hh => Or.inl hh⟩
+
+/-- The ghost update of a read never touches the write log nor other objects' logs; end-of-stream is
+    recorded only for an object whose receiving half was still observed. -/
+theorem readGhost_facts (e : EP) (g : Ghost) (res : Res) (i : Nat) (o : Obj) (ho : e.objs[i]? = some o) :
+    (readGhost e g res i).wlog = g.wlog ∧
+    (∀ k, k ≠ i → (readGhost e g res i).rlog k = g.rlog k ∧ (readGhost e g res i).eof k = g.eof k) ∧
+    ((readGhost e g res i).eof i = true → g.eof i = true ∨ o.rxOpen = true) := by
+  obtain ⟨n1, n2, n3, n4⟩ := noteEof_facts e g i o ho
+  cases res with
+  | data bs => exact ⟨rfl, fun k hk => ⟨by show (g.addR i bs).rlog k = _; simp [Ghost.addR, hk], rfl⟩, fun hh => Or.inl hh⟩
+  | eof => exact ⟨n1, fun k hk => ⟨by show (g.noteEof e i).rlog k = _; rw [n2], n3 k hk⟩, n4⟩
+  | _ => exact ⟨rfl, fun _ _ => ⟨rfl, rfl⟩, fun hh => Or.inl hh⟩
 
 /-- `poll_read`. -/
 theorem inv_read {p : PS} (h : Inv p) (hd n : Nat) :
     Inv { p with a := (appRead p.a hd n).1,
                  ga := match (appRead p.a hd n).2, p.a.handles[hd]? with
                        | .data bs, some i => p.ga.addR i bs
-                       | .eof, some i => p.ga.setEof i
+                       | .eof, some i => p.ga.noteEof p.a i
                        | _, _ => p.ga } := by
   cases hh : p.a.handleObj hd with
   | none =>
@@ -199,43 +289,87 @@ theorem inv_read {p : PS} (h : Inv p) (hd n : Nat) :
     · rcases appRead_local p.a hd i n o hh h.runA.outClosed hne with
         ⟨hb, hres, u⟩ | ⟨hb, f, rest, hq, hres, hcase⟩ | ⟨hb, hq, ha, hres, he⟩ | ⟨hb, hq, ha, hres, u⟩
       · rw [hres]
-        refine inv_of_local (ba' := p.ba) (hd := []) (fbaT := fl _ (pathBA p)) (g' := p.ga.addR i (o.buf.take n)) h s u ho rfl rfl (by simp) (Or.inl rfl) rfl rfl (hS_of_eq rfl rfl (by simp) rfl)
-          ?_ (fun _ _ b _ _ => absurd b hb) ⟨rfl, rfl⟩ (by simp) (fun k hk => addR_other _ _ _ _ hk)
-        intro _ oS fwd bwd w l dr
-        rw [addR_rlog_self, List.append_nil]
-        exact ⟨_, dr.readBuf n hb⟩
+        refine inv_of_reader_upd (g' := p.ga.addR i (o.buf.take n)) h s u ho rfl ⟨rfl, rfl, rfl, rfl, rfl, rfl, id⟩
+          (by intro m hm; cases hm) (by simp) ?_ ?_ id (fun _ b _ => hb b) (fun k hk => addR_other _ _ _ _ hk)
+        · intro _ oS fwd bwd w l dr
+          rw [addR_rlog_self, List.append_nil]
+          exact ⟨_, dr.readBuf n hb⟩
+        · intro _ fwd w l dr
+          rw [addR_rlog_self]
+          exact ⟨_, dr.readBuf n hb⟩
       · rw [hres]
         rcases hcase with ⟨ht, u⟩ | ⟨ht, u⟩
-        · refine inv_of_local (ba' := p.ba) (hd := []) (fbaT := fl _ (pathBA p)) (g' := p.ga.addR i (f.take n)) h s u ho rfl rfl ?_ (Or.inl rfl) rfl rfl (hS_of_eq rfl rfl (by simp) rfl)
-            ?_ (fun _ a _ _ _ => by rw [hq] at a; cases a) ⟨rfl, rfl⟩ (by simp) (fun k hk => addR_other _ _ _ _ hk)
-          · intro m hm; simp at hm; subst hm; exact ⟨rfl, rfl⟩
+        · refine inv_of_reader_upd (g' := p.ga.addR i (f.take n)) h s u ho rfl ⟨rfl, rfl, rfl, rfl, rfl, rfl, id⟩
+            (by intro m hm; simp at hm; exact ⟨_, hm⟩) (by simp) ?_ ?_ id (fun a _ _ => by rw [hq] at a; cases a)
+            (fun k hk => addR_other _ _ _ _ hk)
           · intro _ oS fwd bwd w l dr
             rw [addR_rlog_self]
             exact ⟨_, (dr.readFrame o.fid n f rest hb hq).1 ht⟩
-        · refine inv_of_local (ba' := p.ba) (hd := []) (fbaT := fl _ (pathBA p)) (g' := p.ga.addR i (f.take n)) h s u ho rfl rfl (by simp) (Or.inl rfl) rfl rfl (hS_of_eq rfl rfl (by simp) rfl)
-            ?_ (fun _ a _ _ _ => by rw [hq] at a; cases a) ⟨rfl, rfl⟩ (by simp) (fun k hk => addR_other _ _ _ _ hk)
-          intro _ oS fwd bwd w l dr
-          rw [addR_rlog_self, List.append_nil]
-          exact ⟨_, (dr.readFrame o.fid n f rest hb hq).2 ht⟩
+          · intro _ fwd w l dr
+            rw [addR_rlog_self]
+            exact ⟨_, (dr.readFrame n f rest hb hq).1 ht⟩
+        · refine inv_of_reader_upd (g' := p.ga.addR i (f.take n)) h s u ho rfl ⟨rfl, rfl, rfl, rfl, rfl, rfl, id⟩
+            (by intro m hm; cases hm) (by simp) ?_ ?_ id (fun a _ _ => by rw [hq] at a; cases a)
+            (fun k hk => addR_other _ _ _ _ hk)
+          · intro _ oS fwd bwd w l dr
+            rw [addR_rlog_self, List.append_nil]
+            exact ⟨_, (dr.readFrame o.fid n f rest hb hq).2 ht⟩
+          · intro _ fwd w l dr
+            rw [addR_rlog_self]
+            exact ⟨_, (dr.readFrame n f rest hb hq).2 ht⟩
       · rw [hres, he]; exact h
       · rw [hres]
-        refine inv_of_local (ba' := p.ba) (hd := []) (fbaT := fl _ (pathBA p)) (g' := p.ga.setEof i) h s u ho rfl rfl (by simp) (Or.inl rfl) rfl rfl (hS_of_eq rfl rfl (by simp) rfl)
-          ?_ (fun _ _ _ _ d => by rw [ha] at d; cases d) ⟨rfl, rfl⟩ (by simp) (fun k hk => setEof_other _ _ _ hk)
-        intro _ oS fwd bwd w l dr
-        rw [setEof_self, List.append_nil]
-        exact ⟨_, dr.readEof n hb hq ha⟩
+        obtain ⟨gw, gk, ge⟩ := readGhost_facts p.a p.ga .eof i o ho
+        change (p.ga.noteEof p.a i).wlog = _ at gw
+        change ∀ k, k ≠ i → (p.ga.noteEof p.a i).rlog k = _ ∧ (p.ga.noteEof p.a i).eof k = _ at gk
+        change (p.ga.noteEof p.a i).eof i = true → _ at ge
+        have hrx' : ∀ (e1 : Bool), ReaderOk ({ o with rxOpen := false } : Obj) e1 → e1 = true := by
+          intro e1 hk; rcases hk with hk | hk
+          · cases hk
+          · exact hk
+        refine inv_of_reader_upd (g' := p.ga.noteEof p.a i) h s u ho rfl ⟨rfl, rfl, rfl, rfl, rfl, rfl, fun hk => by cases hk⟩
+          (by intro m hm; cases hm) (by rw [gw]) ?_ ?_ ?_ (fun _ _ d => by rw [ha] at d; cases d)
+          (fun k hk => ⟨by rw [gw], gk k hk⟩)
+        · intro hk oS fwd bwd w l dr
+          have := hrx' _ hk
+          rw [this, List.append_nil]
+          have hr : (p.ga.noteEof p.a i).rlog = p.ga.rlog := by
+            simp only [Ghost.noteEof, ho]; split <;> rfl
+          rw [hr]
+          exact ⟨_, dr.readEof n hb hq ha⟩
+        · intro hk fwd w l dr
+          have := hrx' _ hk
+          rw [this]
+          have hr : (p.ga.noteEof p.a i).rlog = p.ga.rlog := by
+            simp only [Ghost.noteEof, ho]; split <;> rfl
+          rw [hr]
+          exact ⟨_, dr.readEof n hb hq ha⟩
+        · intro hk
+          rcases ge (hrx' _ hk) with h1 | h1
+          · exact Or.inr h1
+          · exact Or.inl h1
     · obtain ⟨o', em, u, ss, ak⟩ := appRead_coarse p.a hd i n o hh h.runA.outClosed
-      obtain ⟨gw, gk⟩ := readGhost_facts p.ga (appRead p.a hd n).2 i
-      obtain ⟨hemf, hemi⟩ := acks_flow ak
-      refine inv_of_local (ba' := p.ba) (hd := []) (fbaT := fl _ (pathBA p)) h s u ho rfl ss.fid hemf (Or.inl rfl) rfl rfl (hS_of_eq ss.credit ss.finishSent (by rw [gw]) hemi)
-        ?_ ?_ ⟨ss.cap, ss.threshold⟩ (by simp) (fun k hk => ⟨by rw [gw], gk k hk⟩)
+      obtain ⟨gw, gk, ge⟩ := readGhost_facts p.a p.ga (appRead p.a hd n).2 i o ho
+      show Inv { p with a := (appRead p.a hd n).1, ga := readGhost p.a p.ga (appRead p.a hd n).2 i }
+      refine inv_of_reader_upd h s u ho rfl ss ak (by rw [gw]) ?_ ?_ ?_ ?_ (fun k hk => ⟨by rw [gw], gk k hk⟩)
       · intro _ oS fwd bwd w l dr
         exfalso; apply hne
         have := dr.inv.hne_rxq
         rw [dr.hrxq] at this
         exact this
-      · intro _ a _ _ _
-        exfalso; apply hne; rw [a]; intro d hd; cases hd
+      · intro _ fwd w l dr
+        exfalso; apply hne
+        have := dr.inv.hne_rxq
+        rw [dr.hrxq] at this
+        exact this
+      · intro hk
+        rcases hk with hk | hk
+        · exact Or.inl (ss.rxOpen hk)
+        · rcases ge hk with h1 | h1
+          · exact Or.inr h1
+          · exact Or.inl h1
+      · intro a _ _
+        apply hne; rw [a]; intro d hd; cases hd
 
 /-- `poll_shutdown`. -/
 theorem inv_shutdown {p : PS} (h : Inv p) (hd : Nat) : Inv { p with a := (appShutdown p.a hd).1 } := by
@@ -250,30 +384,64 @@ theorem inv_shutdown {p : PS} (h : Inv p) (hd : Nat) : Inv { p with a := (appShu
     rw [hfid_of hh] at s
     rcases appShutdown_local p.a hd i o hh h.runA.outClosed with ⟨hf, hres⟩ | ⟨hf, u⟩
     · rw [hres]; exact h
-    · refine inv_of_local (ba' := p.ba) (hd := []) (fbaT := fl _ (pathBA p)) (g' := p.ga) h s u ho rfl rfl ?_ (Or.inl rfl) rfl rfl ?_
-        (fun _ => hR_of_eq rfl rfl rfl rfl rfl rfl rfl rfl rfl rfl) (fun _ a b c d => ⟨a, b, c, d, by simp, by simp, by simp, fun _ hh => hh⟩) ⟨rfl, rfl⟩ (by simp)
-        (fun _ _ => ⟨rfl, rfl, rfl⟩)
+    · refine inv_of_sender_upd (g' := p.ga) h s u ho rfl rfl ?_ ?_
+        rfl rfl rfl rfl rfl rfl rfl rfl rfl rfl ?_ (fun hh => by rw [hf] at hh; cases hh) ⟨rfl, fun hh => (by rw [hf] at hh; cases hh), fun _ => rfl⟩ (fun _ _ => ⟨rfl, rfl, rfl⟩)
       · intro m hm; simp at hm; subst hm; exact ⟨rfl, rfl⟩
-      · intro oR fwd bwd r eof l dr
+      · intro _ oR fwd bwd r eof l dr
         exact ⟨_, dr.shutdown o.fid hf⟩
+      · intro m hm y' he; simp at hm; subst hm; cases he
 
-/-- Dropping the `MuxStream`: the task is notified; from now on nothing is claimed for the flow. -/
+/-- After end-of-stream was seen, dropping the handle changes nothing the relation looks at. -/
+theorem DirRel.dropAfterEof {oS oR : Obj} {fwd bwd : List Msg} {w r : Bytes} {l : Link.St}
+    (h : DirRel oS oR fwd bwd w r true l) :
+    DirRel oS { oR with rxOpen := false, rxq := [], parked := false } fwd bwd w r true l := by
+  obtain ⟨h1, h2, h3⟩ := h.inv.heof h.heof
+  exact ⟨h.inv, h.hW, h.hWb, h.hth, h.hcredit, h.hfin, h.hwire, h.halive, h2, h.hbuf, h.hsince, h.hacks, h.hacc, h.hdel,
+    h.heof, fun _ => by rw [← h.halive]; exact h1⟩
+
+theorem DirRelA.dropAfterEof {oR : Obj} {fwd : List Msg} {w r : Bytes} {l : Link.St}
+    (h : DirRelA oR fwd w r true l) :
+    DirRelA { oR with rxOpen := false, rxq := [], parked := false } fwd w r true l := by
+  obtain ⟨h1, h2, h3⟩ := h.inv.heof h.heof
+  exact ⟨h.inv, h.hW, h.hWb, h.hth, h.hfin, h.hwire, h.halive, h2, h.hbuf, h.hsince, h.hacc, h.hdel,
+    h.heof, fun _ => by rw [← h.halive]; exact h1⟩
+
+/-- Dropping the `MuxStream`: the task is notified; the receiving role is no longer observed (unless
+    end-of-stream had been seen, after which nothing changes any more). -/
 theorem inv_dropStream {p : PS} (h : Inv p) (hd : Nat) (dl : List Nat) :
     Inv { p with a := (appDropStream p.a hd).1, ga := { p.ga with dropped := dl } } := by
   cases hh : p.a.handleObj hd with
   | none =>
     have : appDropStream p.a hd = (p.a, .badHandle) := by unfold appDropStream; rw [hh]
     rw [this]
-    exact ⟨h.runA, h.runB, h.sfA, h.sfB, h.nodup, h.nonzero, h.ghA, h.ghB, h.phase⟩
+    exact ⟨h.runA, h.runB, h.sfA, h.sfB, h.nodup, h.nonzero, h.ghA, h.ghB, h.phase, h.live⟩
   | some io =>
     obtain ⟨i, o⟩ := io
     have ho := handleObj_obj hh
     have s := appDropStream_eff p.a hd
     rw [hfid_of hh] at s
     have u := appDropStream_local p.a hd i o hh h.runA.dead
-    -- after the drop the notification is queued, so the receiving role is not claimed any more
-    refine inv_of_local (ba' := p.ba) (hd := []) (fbaT := fl _ (pathBA p)) (g' := { p.ga with dropped := dl }) h s u ho rfl rfl (by simp) (Or.inl rfl) rfl rfl (hS_of_eq rfl rfl rfl rfl)
-      (fun hn => absurd (by simp) hn) (fun _ a b c d => ⟨rfl, b, c, d, by simp, rfl, rfl, fun hh _ => absurd (by simp) hh⟩) ⟨rfl, rfl⟩ (by simp)
-      (fun _ _ => ⟨rfl, rfl, rfl⟩)
+    have heq : ∀ (e1 : Bool), ReaderOk ({ o with rxOpen := false, rxq := [], parked := false } : Obj) e1 → e1 = true := by
+      intro e1 hk; rcases hk with hk | hk
+      · cases hk
+      · exact hk
+    refine inv_of_local (ba' := p.ba) (hd := []) (fbaT := fl _ (pathBA p)) (g' := { p.ga with dropped := dl }) h s u ho rfl rfl
+      (by simp) (Or.inl rfl) rfl rfl (hS_of_eq rfl rfl rfl rfl) ?_ ?_ (fun hk => Or.inr (heq _ hk)) ⟨fun hh => ⟨hh, rfl⟩, id⟩
+      (fun _ => noReset_nil) (fun _ => noReset_nil) ⟨rfl, fun _ => rfl, fun hh => (by cases hh), fun ha => Or.inl ha⟩ ⟨fun _ => rfl, fun _ => rfl⟩ (fun _ a b c d => ⟨rfl, b, c, d, by simp, rfl, rfl, fun hh _ => absurd (by simp) hh⟩)
+      ⟨rfl, rfl⟩ (by simp) (fun _ _ => ⟨rfl, rfl, rfl⟩)
+    · intro hk oS fwd bwd w l dr
+      have he := heq _ hk
+      have he' : p.ga.eof i = true := he
+      rw [he'] at dr
+      rw [List.append_nil]
+      show ∃ l', DirRel oS _ fwd bwd w (p.ga.rlog i) (p.ga.eof i) l'
+      rw [he']
+      exact ⟨l, dr.dropAfterEof⟩
+    · intro hk fwd w l dr
+      have he' : p.ga.eof i = true := heq _ hk
+      rw [he'] at dr
+      show ∃ l', DirRelA _ fwd w (p.ga.rlog i) (p.ga.eof i) l'
+      rw [he']
+      exact ⟨l, dr.dropAfterEof⟩
 
 end Penguin.Pair
